@@ -4,6 +4,7 @@ import (
 	"bytes"
 	"encoding/hex"
 	"fmt"
+	"math"
 	"os"
 	"os/exec"
 	"path"
@@ -17,6 +18,7 @@ import (
 	"github.com/sboehler/knut/lib/syntax"
 	"github.com/sboehler/knut/lib/syntax/bayes"
 	"github.com/sboehler/knut/lib/syntax/directives"
+	"github.com/sboehler/knut/lib/syntax/parser"
 )
 
 func init() { runners["C15"] = runC15 }
@@ -32,6 +34,7 @@ type c15Case struct {
 	Target      string
 	SameFile    bool // the target file is also the training file
 	Kinds       []string
+	Light       bool // parse the training files without the C07 instrumentation (node dump, range checks, watchdog): files of megabytes
 }
 
 func (k c15Case) input() map[string]any {
@@ -101,7 +104,7 @@ func c15CaseFromInput(in map[string]any) (c15Case, bool) {
 
 // c15Collect mirrors syntax.ParseFileRecursively on an in-memory file set: the texts in arrival order of a
 // depth-first walk (a file included twice arrives twice). ok=false: a file is missing, does not parse, or includes itself.
-func c15Collect(files map[string]string, file string, ancestors []string, outTexts *[]string, outFiles *[]directives.File) (ok bool, why string) {
+func c15Collect(files map[string]string, file string, ancestors []string, outTexts *[]string, outFiles *[]directives.File, light bool) (ok bool, why string) {
 	for _, a := range ancestors {
 		if path.Clean(a) == path.Clean(file) {
 			return false, "cycle"
@@ -111,7 +114,12 @@ func c15Collect(files map[string]string, file string, ancestors []string, outTex
 	if !found {
 		return false, "missing"
 	}
-	res := implParse(text, file)
+	var res synResult
+	if light {
+		res = c15ParseLight(text, file)
+	} else {
+		res = implParse(text, file)
+	}
 	if res.Outcome != "ok" {
 		if res.Outcome == "err" {
 			return false, "syntax"
@@ -123,12 +131,31 @@ func c15Collect(files map[string]string, file string, ancestors []string, outTex
 	for _, d := range res.File.Directives {
 		if inc, isInc := d.Directive.(directives.Include); isInc {
 			child := path.Join(filepath.Dir(file), inc.IncludePath.Content.Extract())
-			if ok, why := c15Collect(files, child, append(ancestors[:len(ancestors):len(ancestors)], file), outTexts, outFiles); !ok {
+			if ok, why := c15Collect(files, child, append(ancestors[:len(ancestors):len(ancestors)], file), outTexts, outFiles, light); !ok {
 				return false, why
 			}
 		}
 	}
 	return true, ""
+}
+
+// c15ParseLight is the parser alone (parser.New, Advance, ParseFile as syntax.ParseFile calls them): outcome and tree.
+func c15ParseLight(text, file string) (res synResult) {
+	defer func() {
+		if r := recover(); r != nil {
+			res = synResult{Outcome: "panic", Detail: fmt.Sprint(r)}
+		}
+	}()
+	p := parser.New(text, file)
+	err := p.Advance()
+	var f directives.File
+	if err == nil {
+		f, err = p.ParseFile()
+	}
+	if err != nil {
+		return synResult{Outcome: "err", Message: err.Error()}
+	}
+	return synResult{Outcome: "ok", File: f, NumDirs: len(f.Directives)}
 }
 
 // c15DumpModel reads the (unexported) count tables of the real model by reflection, in the driver's format.
@@ -328,7 +355,7 @@ func c15Run(k c15Case) *c15Impl {
 	if len(k.Training) > 0 {
 		root = k.Training[0].Path
 	}
-	ok, why := c15Collect(files, root, nil, &im.Texts, &im.Files)
+	ok, why := c15Collect(files, root, nil, &im.Texts, &im.Files, k.Light)
 	if !ok {
 		im.Outcome, im.Why = "rejected", "training:"+why
 		if why == "panic" || why == "hang" {
@@ -393,8 +420,12 @@ func c15PhKind(ph string) string {
 // tolerant comparison when the exact scores of the best candidates are closer than 1e-9 (the float sum of logarithms may
 // order them either way).
 func (x *c15run) compareModel(stream string, index int, op string, k c15Case, texts []string, implOutcome, implOut string) {
+	x.compareModelIn(stream, index, op, k.input(), k.Placeholder, k.Target, &k, texts, implOutcome, implOut)
+}
+
+// compareModelIn: the same with the recorded input given (suspect: the case to hand to the directed search, or nil).
+func (x *c15run) compareModelIn(stream string, index int, op string, in map[string]any, placeholder, target string, suspect *c15Case, texts []string, implOutcome, implOut string) {
 	c := x.c
-	in := k.input()
 	impl := implOutcome
 	if implOutcome == "ok" {
 		impl = "ok " + Hex(implOut)
@@ -413,25 +444,28 @@ func (x *c15run) compareModel(stream string, index int, op string, k c15Case, te
 			if ties != "0" {
 				c.Tag(stream + "/near-tie-same-choice")
 			}
-			if !c.Compare(stream, index, op, in, impl, model) && len(x.suspects) < 6 {
-				x.suspects = append(x.suspects, k)
+			if !c.Compare(stream, index, op, in, impl, model) && len(x.suspects) < 6 && suspect != nil {
+				x.suspects = append(x.suspects, *suspect)
 			}
 			return
 		}
 		c.Tag(stream + "/near-tie-other-choice")
 		x.bt.Add(func(tol string) {
-			if !c.Compare(stream, index, op+"(choice among candidates whose exact scores differ by less than 1e-9)", in, "ok", tol) && len(x.suspects) < 6 {
-				x.suspects = append(x.suspects, k)
+			if !c.Compare(stream, index, op+"(choice among candidates whose exact scores differ by less than 1e-9)", in, "ok", tol) && len(x.suspects) < 6 && suspect != nil {
+				x.suspects = append(x.suspects, *suspect)
 			}
-		}, "c15tol", Hex(k.Placeholder), Hex(c07Path), Hex(k.Target), Hex(implOut), c15HexList(texts))
-	}, "c15infer", Hex(k.Placeholder), Hex(c07Path), Hex(k.Target), c15HexList(texts))
+		}, "c15tol", Hex(placeholder), Hex(c07Path), Hex(target), Hex(implOut), c15HexList(texts))
+	}, "c15infer", Hex(placeholder), Hex(c07Path), Hex(target), c15HexList(texts))
 }
 
 // monitors evaluates the property predicates on a real output `out` of infer for target `k.Target`, given the real
 // formatter's rendering `fmtText` of the target.
 func (x *c15run) monitors(stream string, index int, k c15Case, eligible []string, fmtText, out string) {
+	x.monitorsIn(stream, index, k.input(), k.Placeholder, eligible, fmtText, out)
+}
+
+func (x *c15run) monitorsIn(stream string, index int, in map[string]any, placeholder string, eligible []string, fmtText, out string) {
 	c := x.c
-	in := k.input()
 	res2 := implParse(out, c07Path)
 	if !c.Monitor(stream, index, "C15_output_parses", in, res2.Outcome == "ok", "output "+clipTo(fmt.Sprintf("%q", out), 700)+" => "+clipTo(res2.String(), 300)) {
 		return
@@ -439,7 +473,7 @@ func (x *c15run) monitors(stream string, index int, k c15Case, eligible []string
 	x.bt.Add(func(mon string) {
 		c.Monitor(stream, index, "inferOK(only placeholder fields differ from the formatted target; replacements from training and unlike the other account; layout)", in, mon == "ok",
 			"formatted target "+clipTo(fmt.Sprintf("%q", fmtText), 500)+" output "+clipTo(fmt.Sprintf("%q", out), 700)+" training accounts "+fmt.Sprint(eligible)+" => "+mon)
-	}, "c15mon", Hex(k.Placeholder), Hex(c07Path), c15HexList(eligible), Hex(fmtText), Hex(out))
+	}, "c15mon", Hex(placeholder), Hex(c07Path), c15HexList(eligible), Hex(fmtText), Hex(out))
 	out2, oc2 := implFormat(res2)
 	c.Monitor(stream, index, "C15_output_is_formatted(format of the output is the output)", in, oc2 == "ok" && out2 == out, "output "+clipTo(fmt.Sprintf("%q", out), 400)+" formatted again "+clipTo(fmt.Sprintf("%q", out2), 400)+" "+oc2)
 }
@@ -544,6 +578,10 @@ type c15Proc struct {
 }
 
 func c15Exec(bin string, env []string, args ...string) c15Proc {
+	return c15ExecT(30*time.Second, bin, env, args...)
+}
+
+func c15ExecT(timeout time.Duration, bin string, env []string, args ...string) c15Proc {
 	cmd := exec.Command(bin, args...)
 	var so, se bytes.Buffer
 	cmd.Stdout, cmd.Stderr = &so, &se
@@ -564,7 +602,7 @@ func c15Exec(bin string, env []string, args ...string) c15Proc {
 			}
 		}
 		return c15Proc{Status: st, Stdout: so.String(), Stderr: se.String()}
-	case <-time.After(30 * time.Second):
+	case <-time.After(timeout):
 		cmd.Process.Kill()
 		return c15Proc{Status: -2, Stderr: "timeout"}
 	}
@@ -1150,6 +1188,572 @@ func c15ScaleTrx(g *c15Gen, desc string, side string) string {
 	return t[:i+1] + desc + t[j:]
 }
 
+// ---------------------------------------------------------------- bigfile: one training file with thousands of directives
+//
+// `knut infer` trains on what the recursive parser hands over file by file while it is still parsing: whatever that
+// hand-over does with a file depends on the SIZE of the file (batching, buffers that are re-used, chunked reads, limits)
+// and on how the parser goroutine and the training goroutine interleave - and none of it shows on journals of a few
+// dozen directives. The stream builds training journals in which ONE file has 1 000 .. 65 000 directives (around the
+// powers of two, +-1, and in between), run through the real command under GOMAXPROCS 1 / 2 / 16 and perturbed schedules.
+// The journals are made of near-ties: per description two to four accounts whose numbers of training bookings differ by
+// 0 .. 5, so that a handful of transactions lost, duplicated or counted for another file changes the chosen account; the
+// transactions are laid out shuffled, account by account, topic by topic, leaders first / last or strictly alternating.
+// Every case exists in two renderings of the same directives in the same order: the big file, and the big file cut into
+// included files of 25 .. 150 directives each. The property says the choice is a function of the training transactions.
+
+var c15BigRungs = []int{8192, 4096, 0, 1024, 16384, 0, 65536, 2048, 32768, 0} // 0: log-uniform in 4000 .. 30000
+
+type c15BigShape struct {
+	N       int    // directives of the big training file
+	Rung    string // "8192", "8192+1", "8192-17", "between"
+	Layout  string // order of the transactions in the file
+	Topics  int    // descriptions with near-tied accounts
+	Where   string // the big file is the -t file itself ("root"), or reached through an include ("include", "include+siblings")
+	Chunk   int    // directives per included file in the split rendering
+	Noisy   bool   // amounts, spellings, other accounts vary (the near-ties are not exactly controlled)
+	OtherPc int    // percent of directives that are not transactions
+	Exact   int    // topics whose two best accounts have exactly equal counts
+}
+
+func (sh c15BigShape) asMap() map[string]any {
+	return map[string]any{"directives_of_the_big_file": sh.N, "rung": sh.Rung, "layout": sh.Layout, "near_tie_topics": sh.Topics, "where": sh.Where,
+		"split_chunk": sh.Chunk, "noisy": sh.Noisy, "other_directives_percent": sh.OtherPc, "exact_tie_topics": sh.Exact}
+}
+
+func (sh c15BigShape) sizeBucket() string {
+	switch {
+	case sh.N < 1500:
+		return "~1024"
+	case sh.N < 3000:
+		return "~2048"
+	case sh.N < 4096:
+		return "3000-4095"
+	case sh.N == 4096:
+		return "4096"
+	case sh.N <= 4100:
+		return "4097-4100"
+	case sh.N < 8192:
+		return "4101-8191"
+	case sh.N == 8192:
+		return "8192"
+	case sh.N < 16384:
+		return "8193-16383"
+	case sh.N < 40000:
+		return "16384-39999"
+	}
+	return "40000+"
+}
+
+type c15BigCase struct {
+	Shape       c15BigShape
+	Placeholder string
+	One, Split  []c15File // the two renderings of the training journal, root first
+	Target      string
+	BigPath     string
+}
+
+func c15GenerateBig(r *RNG, index int) c15BigCase {
+	var sh c15BigShape
+	if rung := c15BigRungs[index%len(c15BigRungs)]; rung == 0 {
+		lo, hi := math.Log(4000), math.Log(30000)
+		sh.N = int(math.Exp(lo + (hi-lo)*float64(r.Intn(10001))/10000))
+		sh.Rung = "between"
+	} else {
+		small := r.Range(2, 300)
+		d := Pick(r, []int{0, 1, -1, 1, -1, small, -small})
+		sh.N = rung + d
+		sh.Rung = fmt.Sprint(rung)
+		if d != 0 {
+			sh.Rung = fmt.Sprintf("%d%+d", rung, d)
+		}
+	}
+	sh.Layout = Pick(r, []string{"shuffled", "shuffled", "shuffled", "by-account", "by-topic", "leaders-first", "leaders-last", "alternating"})
+	sh.Topics = r.Range(3, 8)
+	sh.Where = Pick(r, []string{"root", "root", "include", "include+siblings"})
+	sh.Noisy = r.Chance(1, 4)
+	sh.OtherPc = Pick(r, []int{0, 0, 2, 10})
+	sh.Chunk = r.Range(25, 150)
+	if m := sh.N/1500 + 1; sh.Chunk < m {
+		sh.Chunk = m
+	}
+	ph := "Expenses:TBD"
+	if r.Chance(1, 4) {
+		ph = Pick(r, []string{"TBD", "Expenses:TBD2", "X:Y:Z", "Équité:Offen"})
+	}
+
+	// ---- the topics: description, other account, amount, candidates with their numbers of training bookings
+	type topic struct {
+		words  []string
+		other  string
+		amt    string
+		credit bool // the candidate stands on the credit side
+		accts  []string
+		counts []int
+	}
+	nOthers := sh.N * sh.OtherPc / 100
+	nFiller := r.Range(0, sh.N/10)
+	m := sh.N - nOthers - nFiller
+	weights := make([]int, sh.Topics)
+	wsum := 0
+	for j := range weights {
+		weights[j] = r.Range(1, 4)
+		wsum += weights[j]
+	}
+	topics := make([]topic, sh.Topics)
+	common := Pick(r, []string{"purchase", "card", "Zahlung"})
+	left := m
+	for j := range topics {
+		t := &topics[j]
+		t.words = []string{fmt.Sprintf("Shop%d", j)}
+		if r.Bool() {
+			t.words = append(t.words, common)
+		}
+		if r.Chance(1, 3) {
+			t.words = append(t.words, fmt.Sprintf("ref%d", j))
+		}
+		t.other, t.amt, t.credit = "Assets:Bank", Pick(r, []string{"10", "25.50", "100"}), r.Chance(1, 4)
+		if sh.Noisy && r.Chance(1, 3) {
+			t.other = "Liabilities:Card"
+		}
+		mj := m * weights[j] / wsum
+		if j == len(topics)-1 {
+			mj = left
+		}
+		left -= mj
+		nc := r.Range(2, 4)
+		n0 := mj / nc
+		ds, dsum := make([]int, nc), 0
+		for c := 1; c < nc; c++ {
+			ds[c] = Pick(r, []int{0, 1, 1, 2, 3, 5, n0 / 3})
+			if ds[c] > n0/2 {
+				ds[c] = n0 / 2
+			}
+			dsum += ds[c]
+		}
+		if ds[1] == 0 {
+			sh.Exact++
+		}
+		n := (mj + dsum) / nc
+		used := 0
+		for c := 0; c < nc; c++ {
+			a := fmt.Sprintf("Expenses:%s%d", Pick(r, []string{"Food", "Car", "Home", "K", "Ärzte"}), j*10+r.Intn(10))
+			for _, b := range t.accts {
+				if a == b {
+					a += "x"
+				}
+			}
+			if sh.Noisy && j > 0 && r.Chance(1, 6) {
+				a = topics[j-1].accts[0] // an account two descriptions share
+			}
+			t.accts = append(t.accts, a)
+			cnt := n - ds[c]
+			if cnt < 0 {
+				cnt = 0
+			}
+			t.counts = append(t.counts, cnt)
+			used += cnt
+		}
+		nFiller += mj - used
+	}
+	// the leader is not always the first name in sort order: permute the candidates of a topic
+	for j := range topics {
+		t := &topics[j]
+		for c := len(t.accts) - 1; c > 0; c-- {
+			k := r.Intn(c + 1)
+			t.accts[c], t.accts[k] = t.accts[k], t.accts[c]
+		}
+	}
+
+	// ---- the order of the transactions (topic, candidate; topic -1: filler)
+	type ent struct{ t, c int }
+	shuffle := func(l []ent) {
+		for i := len(l) - 1; i > 0; i-- {
+			k := r.Intn(i + 1)
+			l[i], l[k] = l[k], l[i]
+		}
+	}
+	block := func(j, c int) []ent {
+		l := make([]ent, topics[j].counts[c])
+		for i := range l {
+			l[i] = ent{j, c}
+		}
+		return l
+	}
+	filler := make([]ent, nFiller)
+	for i := range filler {
+		filler[i] = ent{-1, r.Intn(5)}
+	}
+	var ents []ent
+	switch sh.Layout {
+	case "shuffled":
+		for j := range topics {
+			for c := range topics[j].accts {
+				ents = append(ents, block(j, c)...)
+			}
+		}
+		ents = append(ents, filler...)
+		filler = nil
+		shuffle(ents)
+	case "by-account":
+		var groups []ent
+		for j := range topics {
+			for c := range topics[j].accts {
+				groups = append(groups, ent{j, c})
+			}
+		}
+		shuffle(groups)
+		for _, g := range groups {
+			ents = append(ents, block(g.t, g.c)...)
+		}
+	case "by-topic":
+		for _, j := range c15Perm(r, len(topics)) {
+			var l []ent
+			for c := range topics[j].accts {
+				l = append(l, block(j, c)...)
+			}
+			shuffle(l)
+			ents = append(ents, l...)
+		}
+	case "leaders-first", "leaders-last":
+		var lead, rest []ent
+		for j := range topics {
+			best := 0
+			for c := range topics[j].accts {
+				if topics[j].counts[c] > topics[j].counts[best] {
+					best = c
+				}
+			}
+			for c := range topics[j].accts {
+				if c == best {
+					lead = append(lead, block(j, c)...)
+				} else {
+					rest = append(rest, block(j, c)...)
+				}
+			}
+		}
+		shuffle(lead)
+		shuffle(rest)
+		if sh.Layout == "leaders-first" {
+			ents = append(lead, rest...)
+		} else {
+			ents = append(rest, lead...)
+		}
+	default: // alternating: the candidates of a topic take turns
+		for _, j := range c15Perm(r, len(topics)) {
+			leftc := append([]int{}, topics[j].counts...)
+			for more := true; more; {
+				more = false
+				for c := range leftc {
+					if leftc[c] > 0 {
+						leftc[c]--
+						ents = append(ents, ent{j, c})
+						more = true
+					}
+				}
+			}
+		}
+	}
+	if len(filler) > 0 { // in one or two blocks somewhere
+		cut := r.Intn(len(filler) + 1)
+		p := r.Intn(len(ents) + 1)
+		ents = append(append(append(append([]ent{}, filler[:cut]...), ents[:p]...), filler[cut:]...), ents[p:]...)
+	}
+
+	// ---- the directives of the big file
+	date := func() string {
+		return fmt.Sprintf("%04d-%02d-%02d", r.Range(2019, 2023), r.Range(1, 12), r.Range(1, 28))
+	}
+	fillers := [][3]string{{"Salary", "Income:Salary", "Assets:Bank"}, {"Rent", "Assets:Bank", "Expenses:Rent"}, {"Transfer", "Assets:Bank", "Assets:Savings"},
+		{"Insurance premium", "Assets:Bank", "Expenses:Insurance"}, {"Tax", "Assets:Bank", "Expenses:Tax"}}
+	trxText := func(e ent) string {
+		if e.t < 0 {
+			f := fillers[e.c]
+			return date() + " \"" + f[0] + "\"\n" + f[1] + " " + f[2] + " " + Pick(r, []string{"1000", "50"}) + " CHF\n"
+		}
+		t := topics[e.t]
+		words, amt := t.words, t.amt
+		if sh.Noisy {
+			words = append([]string{}, words...)
+			if r.Chance(1, 4) {
+				words[0] = strings.ToUpper(words[0])
+			}
+			if r.Chance(1, 5) {
+				words = append(words, Pick(r, []string{"Zürich", "Bern", "online"}))
+			}
+			amt = Pick(r, []string{"10", "25.50", "100", "7"})
+		}
+		cr, db := t.other, t.accts[e.c]
+		if t.credit {
+			cr, db = db, cr
+		}
+		s := date() + " \"" + strings.Join(words, " ") + "\"\n" + cr + " " + db + " " + amt + " CHF\n"
+		if r.Chance(1, 40) { // a booking training skips: a macro account, or the placeholder
+			if r.Bool() {
+				s += "$mac " + db + " 1 CHF\n"
+			} else {
+				s += cr + " " + ph + " 3 CHF\n"
+			}
+		}
+		return s
+	}
+	otherText := func() string {
+		switch r.Intn(4) {
+		case 0:
+			return date() + " open Assets:Bank\n"
+		case 1:
+			return date() + " price USD 0.91 CHF\n"
+		case 2:
+			return date() + " balance Assets:Bank 10 CHF\n"
+		}
+		return date() + " open " + ph + "\n"
+	}
+	isOther := make([]bool, sh.N)
+	for placed := 0; placed < nOthers; {
+		if p := r.Intn(sh.N); !isOther[p] {
+			isOther[p] = true
+			placed++
+		}
+	}
+	dirs := make([]string, 0, sh.N)
+	for i, e := 0, 0; i < sh.N; i++ {
+		d := ""
+		if isOther[i] || e >= len(ents) {
+			d = otherText()
+		} else {
+			d = trxText(ents[e])
+			e++
+		}
+		if r.Chance(1, 60) {
+			d = "# " + Pick(r, []string{"imported", "checked", ph}) + "\n" + d
+		}
+		dirs = append(dirs, d)
+	}
+
+	// ---- the two renderings
+	k := c15BigCase{Shape: sh, Placeholder: ph}
+	head, tail := "", ""
+	var siblings []c15File
+	if sh.Where != "root" {
+		head = date() + " open Assets:Bank\n\n" + trxText(ent{-1, 0}) + "\n"
+		if r.Bool() {
+			tail = "\n" + trxText(ent{-1, 1})
+		}
+	}
+	if sh.Where == "include+siblings" {
+		for i := r.Range(1, 3); i > 0; i-- {
+			var b strings.Builder
+			for n := r.Range(0, 6); n > 0; n-- {
+				b.WriteString(trxText(ent{-1, r.Intn(5)}) + "\n")
+			}
+			siblings = append(siblings, c15File{fmt.Sprintf("s%d.knut", i), b.String()})
+			if r.Bool() {
+				head += fmt.Sprintf("include \"s%d.knut\"\n\n", i)
+			} else {
+				tail += fmt.Sprintf("\ninclude \"s%d.knut\"\n", i)
+			}
+		}
+	}
+	big := strings.Join(dirs, "\n")
+	var parts []c15File
+	var incs strings.Builder
+	for a := 0; a < len(dirs); a += sh.Chunk {
+		b := a + sh.Chunk
+		if b > len(dirs) {
+			b = len(dirs)
+		}
+		p := fmt.Sprintf("parts/p%05d.knut", len(parts)+1)
+		parts = append(parts, c15File{p, strings.Join(dirs[a:b], "\n")})
+		incs.WriteString("include \"" + p + "\"\n")
+	}
+	if sh.Where == "root" {
+		k.BigPath = "train.knut"
+		k.One = []c15File{{"train.knut", big}}
+		k.Split = append([]c15File{{"train.knut", incs.String()}}, parts...)
+	} else {
+		k.BigPath = "data/big.knut"
+		k.One = append([]c15File{{"train.knut", head + "include \"data/big.knut\"\n" + tail}, {"data/big.knut", big}}, siblings...)
+		k.Split = append(append([]c15File{{"train.knut", head + incs.String() + tail}}, parts...), siblings...)
+	}
+
+	// ---- the target: a placeholder per topic, some of them twice, between other directives
+	var tb strings.Builder
+	if r.Bool() {
+		tb.WriteString("# new bookings, to be classified\n\n")
+	}
+	for _, j := range c15Perm(r, len(topics)) {
+		t := topics[j]
+		for rep := 0; rep < 2; rep++ {
+			if rep == 1 && !r.Chance(1, 4) {
+				break
+			}
+			words := append([]string{}, t.words...)
+			if r.Chance(1, 5) {
+				words = append(words, "neu")
+			}
+			cr, db := t.other, ph
+			if t.credit != (rep == 1) {
+				cr, db = db, cr
+			}
+			amt := Pick(r, []string{"12.35", "71.20", t.amt})
+			tb.WriteString(date() + " \"" + strings.Join(words, " ") + "\"\n" + cr + " " + db + " " + amt + " CHF\n\n")
+		}
+		if r.Chance(1, 4) {
+			tb.WriteString(trxText(ent{-1, r.Intn(5)}) + "\n")
+		}
+		if r.Chance(1, 8) {
+			tb.WriteString(otherText() + "\n")
+		}
+	}
+	k.Target = tb.String()
+	return k
+}
+
+func c15Perm(r *RNG, n int) []int {
+	p := make([]int, n)
+	for i := range p {
+		p[i] = i
+	}
+	for i := n - 1; i > 0; i-- {
+		k := r.Intn(i + 1)
+		p[i], p[k] = p[k], p[i]
+	}
+	return p
+}
+
+// big runs one case of the bigfile stream.
+func (x *c15run) big(index int, k c15BigCase) {
+	c := x.c
+	c.Evals++
+	sh := k.Shape
+	in := map[string]any{"regenerate": "the case is a function of (seed, stream, index); a replay builds it again", "shape": sh.asMap(), "placeholder": k.Placeholder,
+		"target": k.Target, "big_file": k.BigPath, "files_of_the_split_rendering": len(k.Split)}
+	for _, f := range k.One {
+		if f.Path == k.BigPath {
+			in["big_file_bytes"] = len(f.Text)
+			in["big_file_begins"] = clipTo(f.Text, 400)
+		}
+	}
+	// the library code in-process, on both renderings (the parser alone reads a file; nothing is handed over between goroutines)
+	one := c15Run(c15Case{Placeholder: k.Placeholder, Training: k.One, Target: k.Target, Light: true})
+	split := c15Run(c15Case{Placeholder: k.Placeholder, Training: k.Split, Target: k.Target, Light: true})
+	c.Class(fmt.Sprintf("bigfile/%s/%s/%s/noisy%v/others%d/%s", sh.sizeBucket(), sh.Layout, sh.Where, sh.Noisy, sh.OtherPc, one.Outcome))
+	c.Tag("bigfile/size " + sh.sizeBucket())
+	if one.Outcome != "ok" || split.Outcome != "ok" {
+		detail := fmt.Sprintf("one file: %s %s; split: %s %s", one.Outcome, one.Why, split.Outcome, split.Why)
+		if strings.HasPrefix(one.Outcome, "panic") || strings.HasPrefix(split.Outcome, "panic") {
+			c.Monitor("bigfile", index, "C15_no_panic", in, false, detail)
+		} else { // the generator wrote something the parser rejects: nothing to observe
+			c.Tag("bigfile/generated-journal-rejected")
+			c.Notes = append(c.Notes, fmt.Sprintf("bigfile %d: generated journal not accepted (%s)", index, detail))
+		}
+		return
+	}
+	nd := 0
+	for _, f := range one.Files {
+		if len(f.Directives) > nd {
+			nd = len(f.Directives)
+		}
+	}
+	if nd != sh.N {
+		c.Tag("bigfile/size-not-as-announced")
+		c.Notes = append(c.Notes, fmt.Sprintf("bigfile %d: the big file has %d directives, announced %d", index, nd, sh.N))
+	}
+	if index < 2 {
+		c.Sample(map[string]any{"stream": "bigfile", "input": in, "output": clipTo(one.Out, 500)})
+	}
+	if one.Replaced > 0 {
+		c.Tag("replaced")
+	}
+	c.Monitor("bigfile", index, "C15_deterministic(library code: the same training directives in one file / cut into included files)", in, one.Out == split.Out,
+		"one file "+clipTo(fmt.Sprintf("%q", one.Out), 600)+" split "+clipTo(fmt.Sprintf("%q", split.Out), 600))
+	// the model reads the split rendering (its parser is quadratic in the size of a file; the training transactions are the same)
+	x.compareModelIn("bigfile", index, "c15infer(model on the split rendering) vs library code on the big file", in, k.Placeholder, k.Target, nil, split.Texts, "ok", one.Out)
+	fres := implParse(k.Target, c07Path)
+	fmtText, foc := implFormat(fres)
+	if foc != "ok" {
+		c.Monitor("bigfile", index, "format(target)", in, false, foc)
+		return
+	}
+
+	// ---- the command
+	dir := filepath.Join(c.WorkDir, fmt.Sprintf("c15big-%d", index))
+	os.RemoveAll(dir)
+	defer os.RemoveAll(dir)
+	write := func(rel, text string) string {
+		p := filepath.Join(dir, rel)
+		os.MkdirAll(filepath.Dir(p), 0o755)
+		if err := os.WriteFile(p, []byte(text), 0o644); err != nil {
+			fatalf("%v", err)
+		}
+		return p
+	}
+	target := write("target.knut", k.Target)
+	for _, f := range k.One {
+		write(filepath.Join("one", f.Path), f.Text)
+	}
+	for _, f := range k.Split {
+		write(filepath.Join("split", f.Path), f.Text)
+	}
+	run := func(rendering string, env []string) (c15Proc, bool) {
+		args := []string{"infer", "-t", filepath.Join(dir, rendering, "train.knut")}
+		if k.Placeholder != "Expenses:TBD" || index%3 == 0 {
+			args = append(args, "-a", k.Placeholder)
+		}
+		args = append(args, target)
+		p := c15ExecT(120*time.Second, c.KnutBin, env, args...)
+		if p.Status == -2 { // a loaded machine: once more before anything is concluded
+			c.Tag("bigfile/timeout-retried")
+			p = c15ExecT(120*time.Second, c.KnutBin, env, args...)
+		}
+		ok := !(strings.Contains(p.Stderr, "panic:") || strings.Contains(p.Stderr, "goroutine ") || p.Status != 0)
+		c.Monitor("bigfile", index, "C15_no_panic(the command accepts what the library code accepts)", in, ok, fmt.Sprintf("%s rendering, env %v: exit %d stderr %s", rendering, env, p.Status, clipTo(p.Stderr, 600)))
+		return p, ok
+	}
+	first, ok := run("one", nil)
+	if !ok {
+		return
+	}
+	c.Compare("bigfile", index, "stdout of the command (one big training file) vs the library code in-process", in, Hex(first.Stdout), Hex(one.Out))
+	x.monitorsIn("bigfile", index, in, k.Placeholder, one.Eligible, fmtText, first.Stdout)
+	// the same training transactions, spread over many small files: the same choice
+	for rep, env := range [][]string{{"GOMAXPROCS=1"}, {fmt.Sprintf("KNUT_VERIF_SEED=%d", 104729+index)}} {
+		if rep == 1 && !c.Thorough() && index%2 == 1 {
+			break
+		}
+		q, ok := run("split", env)
+		if !ok {
+			return
+		}
+		if !c.Monitor("bigfile", index, "C15_deterministic(the same training directives in one file / cut into included files: same output of the command)", in, q.Stdout == first.Stdout,
+			fmt.Sprintf("training file with %d directives: %s; the same directives in %d files of at most %d, env %v: %s", sh.N, clipTo(fmt.Sprintf("%q", first.Stdout), 700), len(k.Split)-1, sh.Chunk, env, clipTo(fmt.Sprintf("%q", q.Stdout), 700))) {
+			c.Tag("bigfile/one-file-differs-from-split")
+			break
+		}
+	}
+	// the big file again, under other schedules
+	gomax := []string{"1", "2", "16", "1", "4", "", "2", "16", "1", "3", "8", ""}
+	for rep := 0; rep < c.N(5, 12); rep++ {
+		var env []string
+		if g := gomax[rep%len(gomax)]; g != "" {
+			env = append(env, "GOMAXPROCS="+g)
+		}
+		if rep%2 == 1 || rep >= 6 {
+			env = append(env, fmt.Sprintf("KNUT_VERIF_SEED=%d", rep*7919+index+1))
+		}
+		q, ok := run("one", env)
+		if !ok {
+			return
+		}
+		if !c.Monitor("bigfile", index, "C15_deterministic(one big training file: repeated runs under GOMAXPROCS 1/2/16 and perturbed schedules)", in, q.Stdout == first.Stdout,
+			fmt.Sprintf("run 0 (no env): %s; run %d, env %v: %s", clipTo(fmt.Sprintf("%q", first.Stdout), 700), rep+1, env, clipTo(fmt.Sprintf("%q", q.Stdout), 700))) {
+			c.Tag("bigfile/run-differs-from-run")
+			break
+		}
+	}
+	after, _ := os.ReadFile(target)
+	c.Monitor("bigfile", index, "C15_target_untouched_without_inplace", in, string(after) == k.Target, "target file changed by a run without --inplace")
+}
+
 func c15Corpus() []c15Case {
 	trainGolden := "2022-01-01 \"Migros food\"\nAssets:Bank Expenses:Food 10 CHF\n\n2022-01-02 \"SBB ticket\"\nAssets:Bank Expenses:Travel 20 CHF\n\n2022-01-03 \"Salary\"\nIncome:Salary Assets:Bank 1000 CHF\n"
 	tf := func(s string) []c15File { return []c15File{{"train.knut", s}} }
@@ -1411,6 +2015,19 @@ func runC15(c *Ctx) {
 		x.cli(i, k)
 	}
 	x.flush()
+
+	// ---- bigfile: a training journal with ONE file of thousands of directives, through the command, under several schedules
+	tBig := time.Now()
+	for i := 0; i < c.N(5, 20); i++ {
+		if !c.Want("bigfile", i) {
+			continue
+		}
+		x.big(i, c15GenerateBig(c.Rng("bigfile", i), i))
+		x.flush()
+	}
+	if !c.Replay {
+		c.Extra["bigfile_stream_wall_s"] = fmt.Sprintf("%.1f", time.Since(tBig).Seconds())
+	}
 
 	// ---- directed search around disagreements
 	if len(x.suspects) > 0 && !c.Replay {
